@@ -21,7 +21,15 @@ class Ctx:
     def prog(self, config="default"):
         if config not in self._progs:
             d = facts.extract(config)
-            raw = facts.load_raw(d)
+            try:
+                raw = facts.load_raw(d)
+            except (FileNotFoundError, ValueError):
+                # the directory was pruned or is incomplete (concurrent run): extract again
+                import shutil
+
+                shutil.rmtree(d, ignore_errors=True)
+                d = facts.extract(config)
+                raw = facts.load_raw(d)
             p = core.Program(raw)
             p.config = config
             p.factdir = d
